@@ -172,14 +172,24 @@ def c19():
                     ({"1,0,0": [0.75000001, 0.75000001, 0.75000001], "2,0,0": [0.65000004, 0.85000004, 0.75000004], "3,0,0": [0.1, 0.1, 0.1]},
                      "max", 0.75000004),
                     ({"1,0,0": [2.0000002, 2.0000002, 2.0000002], "2,0,0": [1.0000001, 3.0000001, 2.0000001], "3,0,0": [5.0, 5.0, 5.0]}, "min", 2.0000001)]
+        # means that differ by less than any absolute tolerance one might round to (well-converged optimizers report costs of
+        # 1e-30 and below; large plateaus differ in the 13th digit): the optimum still wins by its mean
+        vtables += [({"1,0,0": [1.2e-32] * 3, "2,0,0": [1.7e-60] * 3, "3,0,0": [5.8e-115] * 3}, "min", None),
+                    ({"1,0,0": [-1.2e-32] * 3, "2,0,0": [-1.7e-60] * 3, "3,0,0": [-5.8e-115] * 3}, "max", None),
+                    ({"1,0,0": [5.0000000000002] * 3, "2,0,0": [5.0000000000001] * 3, "3,0,0": [7.0] * 3}, "min", None),
+                    ({"1,0,0": [5.0000000000001] * 3, "2,0,0": [5.0000000000002] * 3, "3,0,0": [1.0] * 3}, "max", None),
+                    ({"1,0,0": [3e-13, 3e-13, 3e-13], "2,0,0": [1e-13, 4e-13, 2.5e-13], "3,0,0": [1.0, 1.0, 1.0]}, "min", None)]
         for table, mm, best in vtables:
+            if best is None:
+                best = (max if mm == "max" else min)(sum(v) / len(v) for v in table.values())
             log = os.path.join(tmp, f"log_{len(os.listdir(tmp))}.jsonl")
             open(log, "w").close()
             task = F["tasks"]["TaskA"](variables=F["V"](), minmax=mm, data={"table": table, "log": log})
             ht = HyperTuner(F["Opt"](), {"a": [1, 2, 3]})
             ht.execute(task, n_trials=3, n_jobs=2)
-            tol = 1e-12 * max(1.0, abs(best))
-            best_a = [int(k.split(",")[0]) for k, v in table.items() if abs(sum(v) / len(v) - best) <= tol][0]
+            tol = 1e-9 * abs(best)            # relative: the score is a mean of the values, up to rounding of the summation
+            best_a = (max if mm == "max" else min)(table.items(), key=lambda kv: sum(kv[1]) / len(kv[1]))[0]
+            best_a = int(best_a.split(",")[0])          # the tables have a unique optimum
             law(f"execute with differing variances {mm} (optimum {best}): best mean wins whatever the spread",
                 abs(ht.best_score - best) <= tol and ht.best_parameters == {"a": best_a},
                 f"best_score {ht.best_score}, best_parameters {ht.best_parameters}, optimum {best}")
